@@ -1,6 +1,7 @@
 //! C03 — client and backend always agree on request boundaries (no smuggling) (DESIGN §4 C03).
 //!
-//! Built so far: the HTTP/1.1 frontend -> HTTP/1.1 backend path, black box through a live worker.
+//! Built so far: the HTTP/1.1 frontend -> HTTP/1.1 backend path, black box through a live worker; the HTTP/2
+//! frontend -> HTTP/1.1 backend path is sub-check `h2smuggle` in `c03_h2.rs`.
 //! Sub-checks: `clean` (in-process guard: the reference readers accept 100 % of a grammar-generated
 //! clean corpus and of /repo/lib/assets/http-requests.txt), `cleanwire` (wire lab, clean pipelined
 //! sequences: sozu's output must be accepted by the readers too), `smuggle` (wire lab, the mutator
@@ -155,7 +156,7 @@ pub const TE_FORMS: &[&[u8]] = &[
 ];
 pub const TE_SPLITS: &[(&[u8], &[u8])] = &[(b"chunked", b"identity"), (b"identity", b"chunked"), (b"gzip", b"chunked"), (b"chunked", b"chunked"), (b"chunked", b""), (b"", b"chunked")];
 
-fn cl_form(form: u8, n: usize) -> Vec<u8> {
+pub(super) fn cl_form(form: u8, n: usize) -> Vec<u8> {
     match form {
         0 => format!("+{n}"),
         1 => format!("{n},{n}"),
@@ -936,12 +937,12 @@ pub fn smuggle_strategy() -> impl Strategy<Value = Case> {
 // ------------------------------------------------------------------ lab: recording backends
 
 #[derive(Default)]
-struct Rec {
+pub(super) struct Rec {
     /// bytes per (backend, connection), in order of arrival
-    raw: BTreeMap<(usize, usize), Vec<u8>>,
-    open: usize,
+    pub(super) raw: BTreeMap<(usize, usize), Vec<u8>>,
+    pub(super) open: usize,
     /// total bytes recorded (progress indicator)
-    total: usize,
+    pub(super) total: usize,
 }
 
 pub struct Lab {
@@ -955,7 +956,7 @@ const CLUSTERS: usize = 2;
 
 /// A backend that never interprets for the record: it stores every byte, and answers 200 (2-byte body) to each
 /// request the STRICT reference reader can read on the connection so far, so that sozu keeps going.
-fn serve(backend: usize, conn: usize, mut stream: TcpStream, rec: Arc<Mutex<Rec>>, stop: Arc<AtomicBool>) {
+pub(super) fn serve(backend: usize, conn: usize, mut stream: TcpStream, rec: Arc<Mutex<Rec>>, stop: Arc<AtomicBool>) {
     let _ = stream.set_read_timeout(Some(Duration::from_millis(25)));
     rec.lock().unwrap().open += 1;
     let strict = Opts::strict();
@@ -1129,18 +1130,18 @@ fn observe(lab: &mut Lab, bytes: &[u8], write: &WriteScript) -> Result<Observed,
 
 // ------------------------------------------------------------------ oracle
 
-fn esc(b: &[u8], max: usize) -> String {
+pub(super) fn esc(b: &[u8], max: usize) -> String {
     let s = b.escape_ascii().to_string();
     engine::truncate(&s, max)
 }
 
 /// complete-message boundaries plus the start of an incomplete tail message
-fn shape(r: &Reading) -> Vec<(usize, usize, bool)> {
+pub(super) fn shape(r: &Reading) -> Vec<(usize, usize, bool)> {
     r.reqs.iter().map(|q| (q.start, if q.complete { q.end } else { q.head_end }, q.complete)).collect()
 }
 
 /// number of leading messages of the strict reading on which every variant agrees
-fn agreed_prefix(bytes: &[u8], strict: &Reading, variants: &[Opts]) -> (usize, Option<&'static str>) {
+pub(super) fn agreed_prefix(bytes: &[u8], strict: &Reading, variants: &[Opts]) -> (usize, Option<&'static str>) {
     let base = shape(strict);
     let mut n = base.iter().filter(|x| x.2).count();
     let mut who = None;
@@ -1159,7 +1160,7 @@ fn agreed_prefix(bytes: &[u8], strict: &Reading, variants: &[Opts]) -> (usize, O
     (n, who)
 }
 
-fn first_variant_disagreeing(bytes: &[u8], strict: &Reading, variants: &[Opts]) -> Option<(&'static str, String)> {
+pub(super) fn first_variant_disagreeing(bytes: &[u8], strict: &Reading, variants: &[Opts]) -> Option<(&'static str, String)> {
     let base = shape(strict);
     for v in variants {
         let rv = http::read_requests(bytes, v);
@@ -1174,7 +1175,7 @@ fn marker_of(q: &Req) -> Option<String> {
     q.header_str("x-m").filter(|m| m.len() >= 4)
 }
 
-fn host_only(h: &str) -> String {
+pub(super) fn host_only(h: &str) -> String {
     let h = h.trim();
     let h = h.rsplit_once('@').map(|(_, x)| x).unwrap_or(h);
     let h = match h.rsplit_once(':') {
@@ -1184,7 +1185,7 @@ fn host_only(h: &str) -> String {
     h.to_ascii_lowercase()
 }
 
-fn framing_name(f: &Framing) -> &'static str {
+pub(super) fn framing_name(f: &Framing) -> &'static str {
     match f {
         Framing::None => "no-body",
         Framing::ContentLength(_) => "content-length",
@@ -1196,7 +1197,7 @@ fn is_ulid(v: &[u8]) -> bool {
     v.len() == 26 && v.iter().all(|c| c.is_ascii_alphanumeric())
 }
 
-fn find_sub(h: &[u8], n: &[u8]) -> bool {
+pub(super) fn find_sub(h: &[u8], n: &[u8]) -> bool {
     !n.is_empty() && h.windows(n.len()).any(|w| w == n)
 }
 
@@ -1718,6 +1719,10 @@ fn reader_self_test() -> Vec<String> {
 // ------------------------------------------------------------------ run
 
 pub fn run(args: &Args) -> i32 {
+    if args.shard.is_some() && args.only.as_deref() == Some(super::c03_h2::SUB) {
+        let st = super::c03_h2::child(args, args.cases(super::c03_h2::QUICK, super::c03_h2::THOROUGH));
+        return engine::shard::child_finish(args, &st);
+    }
     if args.shard.is_some() {
         let sub = if args.only.as_deref() == Some(SUB_CLEANWIRE) { SUB_CLEANWIRE } else { SUB_SMUGGLE };
         let total = if sub == SUB_CLEANWIRE { args.cases(320, 3_000) } else { args.cases(1_600, 20_000) };
@@ -1737,7 +1742,7 @@ pub fn run(args: &Args) -> i32 {
         SUB_SMUGGLE,
         "wire lab: one client connection to a live worker (2 clusters c0.lab / c1.lab, each with a recording backend that stores every byte per connection and answers 200 to each request the STRICT reader can read). Client bytes = clean grammar sequence (1..3 pipelined requests, each with a unique marker field; bodies may embed a complete request) + 1..3 mutators from the catalogue (CL+TE / TE+CL, duplicate / conflicting / malformed Content-Length values, 20 Transfer-Encoding value forms, TE split over two fields, whitespace before colon, obs-fold, bare LF, bare CR, NUL/CTL/0x80+ bytes in names and values, 23 chunk-framing forms, 9 version forms incl. HTTP/1.0 + TE, 16 Host forms, 17 request-line forms, byte flip / delete / duplicate / token insert / truncate) written with generated segmentation. Oracle on O = bytes each backend connection received: (1) the strict RFC 9112 reader accepts O and 14 permissive variant readers find the same boundaries; (2) every request any strict reading finds in O carries exactly one Sozu-Id (sozu wrote it as a request head, i.e. it is a request sozu itself understood), its host is the routed cluster's, it occurs at most as often as the client sent its marker, and method / target / version / host / body equal the client's message as read by the strict reader (unambiguous client messages) or by the TE-wins normalising reader (ambiguous ones); (3) ambiguous or malformed client input either does not reach a backend or reaches it in a form satisfying (1)-(2); (4) no CR / LF / NUL / CTL in forwarded field values (strict reader), every forwarded field is one the client sent or one of sozu's documented additions (Host rewritten from the authority, X-Forwarded-For/-Port/-Proto, Forwarded, X-Request-Id, Sozu-Id, Connection: close, re-serialised Cookie). The client's received bytes must be a readable response sequence, no backend response twice. A failure in a connection where sozu forwarded a Transfer-Encoding value that is not a token list ending in chunked is reported under the one signature of that root cause. A failure is re-run twice on a fresh worker. Non-trivial: the client stream is not accepted byte-for-byte by the strict reader and all variants, or it holds 2+ requests.",
     );
-    ev.assume("only the HTTP/1.1 frontend -> HTTP/1.1 backend path is exercised: HTTP/2 peers do not exist in the lab yet (the H2 half of the property, HPACK / pseudo-header / CONTINUATION shapes, and H1<->H2 conversions are not checked); the in-process tier and the h1_smuggle fuzz target of the design are not built");
+    ev.assume("clean / cleanwire / smuggle exercise the HTTP/1.1 frontend -> HTTP/1.1 backend path; the HTTP/2 frontend -> HTTP/1.1 backend path is sub-check h2smuggle (props/c03_h2.rs); h2c backends, the in-process tier and the h1_smuggle fuzz target of the design are not built");
     ev.assume("`any RFC-conforming backend` is approximated by one strict and 14 permissive reference readers; a backend quirk not modelled by a variant is invisible");
     ev.assume("the end of a scenario is a quiet period (220 ms without a byte on either side): bytes sozu would forward later are not seen; every verdict is a positive observation on bytes that did arrive, never an absence");
     ev.assume("default features (tolerant-http1-parser off), default listener options (no X-Real-IP injection), CONNECT and Upgrade / Expect: 100-continue are not generated");
@@ -1761,5 +1766,7 @@ pub fn run(args: &Args) -> i32 {
     let watchdog = Duration::from_secs(args.tier.pick(600, 5400));
     engine::shard::run_sharded(&mut ev, args, SUB_CLEANWIRE, 16, watchdog);
     engine::shard::run_sharded(&mut ev, args, SUB_SMUGGLE, 16, watchdog);
+    super::c03_h2::describe(&mut ev);
+    engine::shard::run_sharded(&mut ev, args, super::c03_h2::SUB, 16, watchdog);
     ev.finish()
 }
